@@ -791,7 +791,17 @@ def extra_programs():
         # a reader whose own column order is not the sorted order of its labels (seeded change C01-m4)
         return dx.from_array(np.arange(36).reshape(12, 3) * np.array([1, 10, 100]), chunksize=5, columns=["c", "a", "b"])
 
+    def ts(t):
+        import dask_expr as dx
+        import numpy as np
+        import pandas as pd
+
+        pdf = pd.DataFrame({"a": np.arange(48), "b": np.arange(48) % 5}, index=pd.date_range("2000-01-01", periods=48, freq="h"))
+        return dx.from_pandas(pdf, npartitions=4)
+
     out = [
+        mk("resample_partitions", lambda t: ts(t).a.resample("3h").sum().partitions[[2, 0]]),  # D113
+        mk("resample_tail", lambda t: ts(t).b.resample("6h").mean().tail(2, compute=False)),
         mk("from_array_unsorted_sel2", lambda t: arr_unsorted(t)[["c", "a"]]),
         mk("from_array_unsorted_sel2_add", lambda t: (arr_unsorted(t) + 1)[["b", "c"]]),
         mk("from_array_unsorted_sel_sum", lambda t: arr_unsorted(t)[["c", "b"]].sum()),
